@@ -167,6 +167,24 @@ func c09FileLock(c *Ctx, pkStore *packages.Package) {
 		c.Fail(rule, "held-on-return", token.NoPos, "no function trying a flock and returning an Unlocker found in private/pkg/filelock")
 	}
 
+	// ---- lock-file-kept: a flock is a lock on an inode; removing or renaming the lock file while another process
+	// waits on (or is about to open) it splits the lock in two. Nothing in the package may remove files.
+	removals, scanned := "", 0
+	for _, sf := range p.SSAFuncsOf([]*packages.Package{pkLock}) {
+		for _, f := range allSSAFuncs(sf) {
+			scanned++
+			for _, call := range callsIn(f) {
+				if o := staticCalleeObj(call.Call); o != nil && o.Pkg() != nil && (o.Pkg().Path() == "os" || o.Pkg().Path() == "syscall") {
+					switch o.Name() {
+					case "Remove", "RemoveAll", "Rename", "Unlink", "Truncate":
+						removals += " " + ssaFuncName(f) + ":" + o.Name()
+					}
+				}
+			}
+		}
+	}
+	c.Ob(rule, "lock-file-kept", token.NoPos, removals == "", scanned > 0, "%d functions of filelock scanned; calls that remove, rename or truncate a file:%s", scanned, removals)
+
 	// ---- kind, same-path ----
 	type pathIngredients struct {
 		set []string
